@@ -1,7 +1,7 @@
 """Shared machinery of the C05 / C06 checks: implementation runner glue, the model-vs-implementation correspondence
 (T1) for the merge core, judges that evaluate the merge laws on nbdime's own results with oracles sharing no code with
 nbdime or with the Coq model, own walks over diffs, small-scope enumerations."""
-import os, json, copy, itertools
+import os, sys, json, copy, itertools
 import core, wire, pyspec, genjson
 
 SCRIPT = 'merge_implrun.py'
@@ -17,6 +17,56 @@ ASSUME = [
     'the notebook-specific strategy family (inline-*, remove, clear-all, record-conflict, inline-attachments) enters the '
     'merge core through the hooks record; cases that reach a hook are outside T1 of this property and are counted',
 ]
+
+def source_facts():
+    """the three source facts, read from $NBDIME_REPO with the translator's own functions"""
+    import importlib.util
+    spec = importlib.util.spec_from_file_location('gen_mergefacts', os.path.join(core.VERIF, 'tools', 'gen', 'gen_mergefacts.py'))
+    g = importlib.util.module_from_spec(spec)
+    old = sys.path[:]
+    sys.path.insert(0, os.path.join(core.VERIF, 'tools', 'gen'))
+    try:
+        spec.loader.exec_module(g)
+        return [g.chunks_guard() == 'GuardAnyDiff', bool(g.entry_eq()), bool(g.conflict_assert())]
+    finally:
+        sys.path[:] = old
+
+_ORIG_NBMODEL = wire.NBMODEL
+_SNAP = []
+def build_and_snapshot(chk):
+    """core.build(), then a private copy of nbmodel (other checks sharing the tree may rebuild it for another
+    NBDIME_REPO while this check runs); the copy must have been built with this tree's source facts."""
+    import tempfile, shutil
+    try:
+        want = source_facts()
+    except Exception:
+        want = None                      # the translator fails closed: core.build reports it
+    b = None; got = None
+    for attempt in range(4):
+        b = core.build()
+        if not getattr(b, 'model_ok', False): return b
+        d = tempfile.mkdtemp(prefix='nbv_model_')
+        dst = os.path.join(d, 'nbmodel')
+        try:
+            shutil.copy2(_ORIG_NBMODEL, dst)
+            wire.NBMODEL = dst
+            got = wire.run_model([('merge_facts', [])])[0][0]
+        except Exception:
+            got = None
+        if want is None or got == want:
+            _SNAP.append(d)
+            chk.notes.append('model snapshot built with source facts [guard_any_diff, entry_eq_strict, conflict_assert_strict] = %r' % (got,))
+            return b
+        wire.NBMODEL = _ORIG_NBMODEL
+        shutil.rmtree(d, ignore_errors=True)
+    chk.broken_obligation('model-facts', {'wanted': want, 'model_built_with': got})
+    return b
+
+def drop_snapshot():
+    import shutil
+    wire.NBMODEL = _ORIG_NBMODEL
+    while _SNAP:
+        shutil.rmtree(_SNAP.pop(), ignore_errors=True)
 
 def run_impl(tasks, shards=14):
     return core.run_impl(tasks, shards=shards, script=SCRIPT)
